@@ -232,9 +232,9 @@ func c05Ops(thorough bool) []vsched.Op {
 	return ops
 }
 
-// c05ColdIdx: this script (long Huffman values) is also run against itself
-// from the package's initial state (tree not built), in the thorough tier.
-const c05ColdIdx = 6
+// c05ColdIdx: the pairs of these scripts are also explored from the
+// package's initial state (Huffman decoding tree not built, pool empty).
+var c05ColdIdx = []int{2, 6}
 
 // c05Warm puts the package into the state every call but the first sees:
 // Huffman decoding tree built, one buffer in the pool (exported API only;
@@ -249,7 +249,7 @@ func c05Warm() {
 func TestVerif_C05_globals(t *testing.T) {
 	vx.Run(t, "C05", func(c *vx.Ctx) {
 		bounds := vx.Pick(c, []int{1}, []int{1, 2})
-		c.Rule("concurrent part: for every unordered pair of scripts from a small alphabet (each script makes its own Encoder over its own buffer and its own Decoder, writes 1-2 header blocks mixing sensitive and non-sensitive fields with equal names / values — static full and name matches, dynamic full and name matches, sensitive before non-sensitive, empty values, Huffman-coded and incompressible values, table size 0 and 70 with eviction; thorough adds an encoder-local limit, a size change between blocks, the empty pair — and decodes each block) two threads run one script each (thorough: twice each) on the instrumented http2/hpack source, starting (programs warm/pair/…, all pairs) from the state after one Huffman decode and (thorough only: program pair/…, one script against itself, one call per thread) from the package's initial state; every schedule with at most B preemptions (quick B=1; thorough B=1 for every program, then B=2 as far as the budget reaches — the bound completed per program is recorded) at the scheduling points — before each statement mentioning a written package-level variable " + fmt.Sprint(zzWrittenGlobals) + ", sync.Once, sync.Pool Get/Put, and between any two Encoder / Decoder calls of a script — is executed and each script must produce its sequential transcript: the bytes and error of every WriteField, the fields the Decoder emits with their Sensitive flags, its errors, the fields dynamic indexes 62-64 resolve to, and (white-box) no pair written only with Sensitive set in the encoder or decoder table")
+		c.Rule("concurrent part: for every unordered pair of scripts from a small alphabet (each script makes its own Encoder over its own buffer and its own Decoder, writes 1-2 header blocks mixing sensitive and non-sensitive fields with equal names / values — static full and name matches, dynamic full and name matches, sensitive before non-sensitive, empty values, Huffman-coded and incompressible values, table size 0 and 70 with eviction; thorough adds an encoder-local limit, a size change between blocks, the empty pair — and decodes each block) two threads run one script each (thorough: twice each) on the instrumented http2/hpack source, starting (programs warm/pair/…, all pairs) from the state after one Huffman decode and (programs pair/…, the three pairs of two of the scripts) from the package's initial state (decoding tree not built, pool empty); every schedule with at most B preemptions (quick B=1; thorough B=1 for every program, then B=2 as far as the budget reaches — the bound completed per program is recorded) at the scheduling points — before each statement mentioning a written package-level variable " + fmt.Sprint(zzWrittenGlobals) + ", sync.Once, sync.Pool Get/Put, and between any two Encoder / Decoder calls of a script — is executed and each script must produce its sequential transcript: the bytes and error of every WriteField, the fields the Decoder emits with their Sensitive flags, its errors, the fields dynamic indexes 62-64 resolve to, and (white-box) no pair written only with Sensitive set in the encoder or decoder table")
 		c.Assume("concurrent part: statement granularity at mentions of written package-level variables; accesses to heap objects only reachable from them and mutation through method calls are not scheduling points; sync.Pool is one shared LIFO free list; the expected transcript is the uninstrumented package's own sequential behaviour (the sequential part judges that the bytes are never-indexed literals); the Encoder path mentions no written package-level variable today, so its calls interleave only at the harness's points between calls")
 		seq := 0
 		if !c.Quick() {
@@ -262,10 +262,12 @@ func TestVerif_C05_globals(t *testing.T) {
 			p.Name = "warm/" + p.Name
 			progs = append(progs, p)
 		}
-		if !c.Quick() {
-			// first use (decoding tree not built yet): one program pair, last, one call per thread
-			progs = append(progs, vsched.PairPrograms("C05", zzResetGlobals, []vsched.Op{ops[c05ColdIdx]}, 0)...)
+		// first use (decoding tree not built yet, pool empty): the pairs of two scripts, last
+		var cold []vsched.Op
+		for _, i := range c05ColdIdx {
+			cold = append(cold, ops[i])
 		}
+		progs = append(progs, vsched.PairPrograms("C05", zzResetGlobals, cold, seq)...)
 		c.Note("globals_programs", len(progs))
 		c.Note("written_package_level_variables", zzWrittenGlobals)
 		vsched.RunBounds(c, "globals", progs, bounds)
